@@ -37,6 +37,19 @@ theorem accepts_last_stage (stage : List Mut) (tr : List Mut) (h : acceptsPrefix
     rw [append_nil] at hm
     exact hp.mem_iff.mp hm
 
+/-- every mutation of an accepted trace belongs to a stage of the plan -/
+theorem accepts_mem (p : Plan) (tr : List Mut) (h : acceptsPrefix p tr = true) : ∀ m ∈ tr, ∃ st ∈ p, m ∈ st := by
+  induction p generalizing tr with
+  | nil => rw [acceptsPrefix_nil_plan tr h]; intro m hm; cases hm
+  | cons stage rest ih =>
+    rcases acceptsPrefix_cases stage rest tr h with h1 | ⟨t1, t2, rfl, hp, hacc⟩
+    · exact fun m hm => ⟨stage, by simp, h1 m hm⟩
+    · intro m hm
+      rcases mem_append.mp hm with h' | h'
+      · exact ⟨stage, by simp, hp.mem_iff.mp h'⟩
+      · obtain ⟨st, hst, hm'⟩ := ih t2 hacc m h'
+        exact ⟨st, by simp [hst], hm'⟩
+
 /-! ## snapshot -/
 def snapPutOf (u : User) (stream : List Content) (files : List FileRec) (ts sid : Nat) : Mut :=
   Mut.put (.snap u.fam sid) (.snap u.fam sid ⟨u.key, ts, dedupKeepFirstC stream, files⟩)
